@@ -10,9 +10,16 @@ use std::time::{Duration, Instant};
 
 pub fn rws_bin() -> PathBuf { PathBuf::from(std::env::var("RWSV_RWS_BIN").unwrap_or_else(|_| format!("{}/.build/rws/release/rws", super::verif_dir()))) }
 
-/// A free loopback port (bind to 0, read it back, close). The port may be taken by someone else before the server binds it;
-/// `Server::start` retries with another one.
+/// A free loopback port below the kernel's ephemeral range (32768..), so that no outgoing connection of a parallel check can hold it; every
+/// process walks its own pseudo-random sequence and tests each candidate by binding it. The port may still be taken before the server
+/// binds it: `Server::start` retries with another one, callers that fix the port themselves retry on "Address already in use".
 pub fn free_port(ip: &str) -> u16 {
+    static NEXT: std::sync::atomic::AtomicU64 = std::sync::atomic::AtomicU64::new(0);
+    for _ in 0..200 {
+        let k = NEXT.fetch_add(1, std::sync::atomic::Ordering::SeqCst);
+        let port = 10240 + (super::hash64(&(std::process::id(), k, "port")) % 22000) as u16;
+        if std::net::TcpListener::bind((ip, port)).is_ok() { return port; }
+    }
     std::net::TcpListener::bind((ip, 0)).ok().and_then(|l| l.local_addr().ok()).map(|a| a.port()).unwrap_or(0)
 }
 
@@ -90,7 +97,7 @@ impl Server {
             let deadline = Instant::now() + Duration::from_secs(5);
             let mut ready = false;
             while Instant::now() < deadline {
-                if let Ok(Some(st)) = s.child.try_wait() { last_err = format!("server exited during start-up with {:?}: {}", st, s.log_tail()); break; }
+                if let Ok(Some(st)) = s.child.try_wait() { let full = s.log_text(); last_err = format!("server exited during start-up with {:?}{}: {}", st, if full.contains("AddrInUse") || full.contains("Address already in use") { " [Address already in use]" } else { "" }, s.log_tail()); break; }
                 let text = std::fs::read_to_string(&s.log).unwrap_or_default();
                 if text.contains("Spawned ") { ready = true; break; }
                 std::thread::sleep(Duration::from_millis(2));
